@@ -440,7 +440,9 @@ var nsFracList = []int64{0, 1, 9, 10, 999, 1000, 123456789, 499999999, 500000000
 
 func fracCentres() []int64 {
 	return []int64{0, 1 << 31, -(1 << 31), daysFromCivil(2000, 3, 1) * 86400, daysFromCivil(1900, 3, 1) * 86400, daysFromCivil(2015, 8, 28)*86400 + 48801,
-		daysFromCivil(1969, 12, 31) * 86400, -86400 * 365, 1500000000, minNsT + 200, maxNsT - 200, daysFromCivil(1600, 1, 1) * 86400, daysFromCivil(9999, 12, 31)*86400 + 86399 - 130, minT + 130}
+		daysFromCivil(1969, 12, 31) * 86400, -86400 * 365, 1500000000, minNsT + 200, maxNsT - 200, daysFromCivil(1600, 1, 1) * 86400, daysFromCivil(9999, 12, 31)*86400 + 86399 - 130, minT + 130,
+		// the windows below CROSS the int64-nanosecond limits and the year boundaries next to them
+		minNsT, maxNsT, daysFromCivil(1677, 1, 1) * 86400, daysFromCivil(1678, 1, 1) * 86400, daysFromCivil(2262, 1, 1) * 86400, daysFromCivil(2263, 1, 1) * 86400}
 }
 
 func fracWorker(w *vf.Worker) {
